@@ -15,6 +15,7 @@ import (
 	"github.com/jacobsa/crypto/cmac"
 
 	"verifharness/internal/cases"
+	"verifharness/internal/collide"
 	"verifharness/internal/cq"
 	"verifharness/internal/framefmt"
 	"verifharness/internal/micforge"
@@ -380,7 +381,26 @@ func relatedFormulas(s *cases.Set, r *cq.RNG, i int) {
 			downJoin(s, r, f, ty, je, dn, k, 3, "related-formula-join-accept:"+cd.name)
 		}
 	}
+	// the right MIC under k, validated under a DIFFERENT key that agrees with k under a cheap digest (internal/collide),
+	// then under k again
+	if err == nil {
+		f := ja
+		if f.SetDownlinkJoinMIC(ty, je, dn, k) == nil {
+			downJoin(s, r, f, ty, je, dn, k, 3, "key-collide-base")
+			for _, pr := range collide.For(k) {
+				downJoin(s, r, f, ty, je, dn, lorawan.AES128Key(pr.K2), 3, "key-collide-"+pr.Name)
+			}
+			downJoin(s, r, f, ty, je, dn, k, 3, "key-collide-base")
+		}
+	}
 	up := joinFrame(r, []int{0, 2, 3, 4}[i%4])
+	if f := up; f.SetUplinkJoinMIC(k) == nil {
+		upJoin(s, r, f, k, 3, "key-collide-base")
+		for _, pr := range collide.For(k) {
+			upJoin(s, r, f, lorawan.AES128Key(pr.K2), 3, "key-collide-"+pr.Name)
+		}
+		upJoin(s, r, f, k, 3, "key-collide-base")
+	}
 	if ub, err := up.MACPayload.MarshalBinary(); err == nil {
 		mh, _ := up.MHDR.MarshalBinary()
 		msg := append(append([]byte{}, mh...), ub...)
@@ -592,7 +612,7 @@ func main() {
 	r := cq.NewRNG(seed)
 	nr = cq.NewRNG(seed ^ 0x9e3779b97f4a7c15)
 	s := cases.New("C04", dir, "LW.Corr.C04",
-		"RFC 4493 examples and the FIPS-197 C.1 decryption first; corpus: join-accept with channel-mask CFList [m0; 0] (C04-1). Join-request and rejoin-request types 0, 1, 2 (palindromic EUIs in 25%), carried MIC valid / random / bit-flipped; join-accept frames with OptNeg both ways, CFList absent / 5 channels / 1..6 masks, JoinNonce 0 and 2^24-1 boundaries, all four JoinReqType values cycled, palindromic and non-palindromic JoinEUI, DevNonce boundaries; EncryptJoinAcceptPayload (device-side aes.Encrypt check in Go and in Coq), Decrypt with the same and with another key, malformed inputs (wrong payload types, lengths not 16/32, JoinNonce >= 2^24). Special MIC values: rejoin-requests type 0/2 CONSTRUCTED (internal/micforge: the single padded CMAC block solved from the tag, ~2^21 trials for pad byte, MHDR and RejoinType) so that their correct MIC is 00000000, ffffffff, 00000001 or the MIC of the previous case; join-accepts carrying these four MIC values through Encrypt / Decrypt (round trip) and Set/Validate. MHDR Major drawn from 0..3 in every generated frame. Related formulas: join frames carrying a MIC that is correct under a related formula (own CMAC: 1.0 form and 1.1 form whatever OptNeg says, other key, other JoinReqType, JoinEUI reversed, DevNonce + 1 / byte-swapped, without MHDR, MHDR first; for requests: prefixed, without MHDR, MHDR twice, other key) - the model decides each verdict. Opaque payloads: join / rejoin frames held as *DataPayload over a window of a receive buffer with spare capacity and sentinels (buffer unchanged, same verdict twice, MIC = typed-frame MIC), ciphertext windows through DecryptJoinAcceptPayload. After every Validate* call the frame must print and marshal as before. Every MIC call is also repeated from 8 goroutines at once. History: unrelated library calls (internal/noise) before every compared call; fail-then-valid families run back to back (a failing Set/Validate/Encrypt call - rejoin payload with the wrong RejoinType, JoinNonce >= 2^24, nil payload - immediately followed by a valid uplink join MIC, join-accept MIC and encryption, and the first valid call again), each compared with model and specification; every MIC call is repeated three times later in the process (reverse, same, shuffled order) and must give its first result. Distinct by construction (random keys) except the repeated calls.")
+		"RFC 4493 examples and the FIPS-197 C.1 decryption first; corpus: join-accept with channel-mask CFList [m0; 0] (C04-1). Join-request and rejoin-request types 0, 1, 2 (palindromic EUIs in 25%), carried MIC valid / random / bit-flipped; join-accept frames with OptNeg both ways, CFList absent / 5 channels / 1..6 masks, JoinNonce 0 and 2^24-1 boundaries, all four JoinReqType values cycled, palindromic and non-palindromic JoinEUI, DevNonce boundaries; EncryptJoinAcceptPayload (device-side aes.Encrypt check in Go and in Coq), Decrypt with the same and with another key, malformed inputs (wrong payload types, lengths not 16/32, JoinNonce >= 2^24). Special MIC values: rejoin-requests type 0/2 CONSTRUCTED (internal/micforge: the single padded CMAC block solved from the tag, ~2^21 trials for pad byte, MHDR and RejoinType) so that their correct MIC is 00000000, ffffffff, 00000001 or the MIC of the previous case; join-accepts carrying these four MIC values through Encrypt / Decrypt (round trip) and Set/Validate. MHDR Major drawn from 0..3 in every generated frame. Related formulas: join frames carrying a MIC that is correct under a related formula (own CMAC: 1.0 form and 1.1 form whatever OptNeg says, other key, other JoinReqType, JoinEUI reversed, DevNonce + 1 / byte-swapped, without MHDR, MHDR first; for requests: prefixed, without MHDR, MHDR twice, other key) - and the right MIC validated under a different key that agrees with the right key under CRC-32 x3 / Adler-32 / xor-folds / shared prefix or suffix (internal/collide), then under the right key again - the model decides each verdict. Opaque payloads: join / rejoin frames held as *DataPayload over a window of a receive buffer with spare capacity and sentinels (buffer unchanged, same verdict twice, MIC = typed-frame MIC), ciphertext windows through DecryptJoinAcceptPayload. After every Validate* call the frame must print and marshal as before. Every MIC call is also repeated from 8 goroutines at once. History: unrelated library calls (internal/noise) before every compared call; fail-then-valid families run back to back (a failing Set/Validate/Encrypt call - rejoin payload with the wrong RejoinType, JoinNonce >= 2^24, nil payload - immediately followed by a valid uplink join MIC, join-accept MIC and encryption, and the first valid call again), each compared with model and specification; every MIC call is repeated three times later in the process (reverse, same, shuffled order) and must give its first result. Distinct by construction (random keys) except the repeated calls.")
 	s.ShardSize = 150
 	n := 400
 	if thorough {
